@@ -180,3 +180,24 @@ Proof.
   - apply Permutation_length_1_inv in Pf. congruence.
   - exfalso. inversion N1 as [|? ? Hnin _]; subst. apply Hnin. left. symmetry. apply K1; cbn; auto.
 Qed.
+
+(* ---------- dlint's two ways of selecting rules (examples/dlint/main.rs, config.rs) ---------- *)
+Definition dlint_config_rules (all : list rule) (tags excl incl : list str) : list rule :=
+  filtered_rules all (Some tags) (Some excl) (Some incl).
+Definition dlint_rule_flag (all : list rule) (c : str) : list rule :=
+  filtered_rules all (Some []) None (Some [c]).
+
+(* `--rule c` runs exactly the rule whose code is c *)
+Theorem rule_flag_selects_exactly all c r :
+  In r (dlint_rule_flag all c) <-> In r all /\ r_code r = c.
+Proof.
+  unfold dlint_rule_flag. rewrite filtered_spec. unfold tagged, listed. cbn [In]. split.
+  - intros [Ha [[[t [_ []]]|[H|[]]] _]]. auto.
+  - intros [Ha E]. split; [exact Ha|]. split; [right; left; symmetry; exact E | tauto].
+Qed.
+
+(* a config file selects (tagged or included) and not excluded *)
+Theorem config_selects all tags excl incl r :
+  In r (dlint_config_rules all tags excl incl) <->
+  In r all /\ ((exists t, In t (r_tags r) /\ In t tags) \/ In (r_code r) incl) /\ ~ In (r_code r) excl.
+Proof. unfold dlint_config_rules. rewrite filtered_spec. reflexivity. Qed.
